@@ -539,3 +539,63 @@ def render_file(f):
 
 def render_project(files):
     return {f"src/{f['name']}": render_file(f) for f in files}
+
+
+# ------------------------------------------------------------------ the fixed program of the exhaustive layer
+
+def template_project():
+    """One file: a default-private module with entities of every permission and kind that prune() filters
+    (types with components and bindings, generic / nameless / abstract interfaces, variables, procedures with
+    dummy arguments, locals, an internal procedure and a local type), a program with a contained procedure and
+    a top-level procedure.  -> (files, {level: node}) where level in file / module / type / procedure"""
+    ids = Ids()
+    f = mk(ids, "file", "NFile", "src", "public", True)
+    f["name"] = f"src{f['id']}.f90"
+    m = mk(ids, "module", "NModule", "m", "private", True)
+    m["default"] = "private"
+
+    def proc(kind, perm, inner, doc=True):
+        p = mk(ids, kind, "NProc", "f" if kind == "function" else "s", perm, doc)
+        p["children"] = [["args", mk(ids, "arg", "NOther", "a", inner, True)],
+                         ["variables", mk(ids, "var", "NOther", "v", inner, True)],
+                         ["variables", mk(ids, "var", "NOther", "v", inner, False)]]
+        return p
+    p_pub, p_priv = proc("subroutine", "public", "private"), proc("function", "private", "private")
+    lt = mk(ids, "type", "NType", "t", "private", True)
+    lt["comp_default"] = lt["bind_default"] = None
+    lt["children"] = [["variables", mk(ids, "comp", "NOther", "c", "public", True)]]
+    p_pub["children"].append(["types", lt])
+    inner = proc("subroutine", "private", "private")
+    p_pub["children"].append(["subroutines", inner])
+    p_undoc = proc("subroutine", "public", "private", doc=False)
+    targets = [p_pub["name"], p_priv["name"]]
+    t = mk(ids, "type", "NType", "t", "public", True)
+    t["comp_default"] = t["bind_default"] = None
+    for perm, doc in (("public", True), ("private", True), ("public", False)):
+        t["children"].append(["variables", mk(ids, "comp", "NOther", "c", perm, doc)])
+    for perm, doc, tg in (("public", True, targets[0]), ("private", True, targets[1]), ("public", False, targets[1])):
+        b = mk(ids, "bound", "NOther", "b", perm, doc)
+        b["target"] = tg
+        t["children"].append(["boundprocs", b])
+    t2 = mk(ids, "type", "NType", "t", "private", True)
+    t2["comp_default"] = t2["bind_default"] = None
+    t2["children"] = [["variables", mk(ids, "comp", "NOther", "c", "public", True)]]
+    g = mk(ids, "generic", "NOther", "g", "public", True)
+    g["members"] = [targets[1]]
+    g2 = mk(ids, "generic", "NOther", "g", "private", False)
+    g2["members"] = [targets[0]]
+    x = mk(ids, "explicit", "NOther", "x", "public", True, isfun=False)
+    x["children"] = [["args", mk(ids, "arg", "NOther", "a", "public", True)]]
+    ai = mk(ids, "abstract", "NOther", "ai", "private", True, isfun=True)
+    ai["children"] = [["args", mk(ids, "arg", "NOther", "a", "private", False)]]
+    m["children"] = [["types", t], ["types", t2], ["interfaces", g], ["interfaces", g2], ["interfaces", x],
+                     ["absinterfaces", ai]]
+    for perm, doc in (("public", True), ("private", True), ("protected", True), ("public", False)):
+        m["children"].append(["variables", mk(ids, "var", "NOther", "v", perm, doc)])
+    m["children"] += [["subroutines", p_pub], ["functions", p_priv], ["subroutines", p_undoc]]
+    pg = mk(ids, "program", "NProgram", "pg", "public", True)
+    pg["children"] = [["variables", mk(ids, "var", "NOther", "v", "public", True)],
+                      ["subroutines", proc("subroutine", "public", "public")]]
+    top = proc("function", "public", "public")
+    f["children"] = [["modules", m], ["programs", pg], ["procs", top]]
+    return [f], {"file": f, "module": m, "type": t, "procedure": p_pub}
